@@ -22,6 +22,9 @@ pub fn run_property(id: &str, tier: Tier) -> i32 {
         "C06" => props::c06::run(tier),
         "C07" => props::c07::run(tier),
         "C08" => props::c08::run(tier),
+        "C09" => props::c09::run(tier),
+        "C10" => props::c10::run(tier),
+        "C19" => props::c19::run(tier),
         _ => {
             eprintln!("unknown property {id}");
             2
